@@ -299,6 +299,8 @@ func checkC05(p *Prog, res *Result, tier string) {
 	res.rule("C05-R12", "one party per end of a watch's channels: the hub never receives from a subscriber channel, Watch starts one consumer of it, and once a goroutine sending on the result channel is started nothing else sends on it (the replay is synchronous and precedes the forwarder)", 3)
 	res.rule("C05-R13", "the per-watch forwarder filters every batch it receives with the revision it was started with (the parameter itself on every path; no receive-to-send path avoids the filter)", 1)
 	res.rule("C05-R14", "a watch is served only by the node that sequences the writes: every Watch call of the server layer is dominated by IsLeader()==true (C18-R2) - a follower's own event history is empty, its watch stays open and silent", 2)
+	res.rule("C05-R15", "no dead error guard: no branch tests an error variable that is nil on every path (an assignment turned into a shadowing :=): the test that stops a stream after a failed send must be able to fire", 1)
+	res.rule("C05-R16", "the event cache is searched and copied at logical positions: whatever is handed to the ring's wrap function is the ring's start or end counter plus or minus an offset", 6)
 	res.rule("C05-R11", "a delete hands the previous value and revision it read to the event sink on every path after the commit, whatever the commit returned: the DELETE event of a write with unknown outcome (delivered after the repair) still names what was deleted", 2)
 	res.rule("C05-R10", "a forwarder start guarded by a comparison of the requested with the committed revision uses the strict form (requested > committed)", 1)
 	res.rule("C05-R9", "a slice handed over a channel (a broadcast batch, a streamed response) is not written by the sender afterwards: no reuse of a once-allocated buffer, no reset of a field buffer by re-slicing", 2)
@@ -464,6 +466,8 @@ func checkC05(p *Prog, res *Result, tier string) {
 			res.add("C05-R14", o.Rule+" "+o.Construct, o.Status, o.Pos, o.Detail)
 		}
 	}
+	checkDeadErrorGuards(p, res, "C05-R15")
+	checkRingLogicalPositions(p, res, "C05-R16")
 
 	// ---- R2 ----
 	checkCacheBeforeBroadcast(p, r, w, res)
@@ -1153,6 +1157,9 @@ func checkDeletePayload(p *Prog, r *Roles, res *Result, rule string) {
 				continue
 			}
 			caller := cc.Parent()
+			if caller == f {
+				continue // a recursive retry: what it returns is returned by the outer call, which is judged at its caller
+			}
 			construct2 := funcName(caller) + ": the event sink receives the previous value and revision the delete returned"
 			exs := extractsOf(cc)
 			if structIdx >= len(exs) || exs[structIdx] == nil {
@@ -1208,4 +1215,52 @@ func structResultIndex(f *ssa.Function) (int, bool) {
 		}
 	}
 	return idx, idx >= 0
+}
+
+// checkDeadErrorGuards (C05-R15): a branch on `x != nil` where x can only be nil is a guard that was meant to stop
+// something and cannot - the variable it tests is never assigned (typically because the assignment was turned into a
+// `:=` that declares a new variable in an inner scope). In go/ssa such a test shows as a comparison of two nil
+// constants, which nobody writes on purpose. Reported for the stream handlers: the guard that stops sending after a
+// failed Send is of this kind.
+func checkDeadErrorGuards(p *Prog, res *Result, rule string) {
+	n := 0
+	for _, f := range p.AllFuncs {
+		if f.Pkg == nil || f.Blocks == nil || !strings.HasPrefix(f.Pkg.Pkg.Path(), modPath+"/pkg") {
+			continue
+		}
+		for _, b := range f.Blocks {
+			iff := ifOf(b)
+			if iff == nil {
+				continue
+			}
+			for _, cf := range expandFact(factOf(iff.Cond, true), 0) {
+				if cf.X == nil || (cf.Op != token.EQL && cf.Op != token.NEQ) {
+					continue
+				}
+				allNil := func(v ssa.Value) bool {
+					v = resolve(v)
+					if phi, ok := v.(*ssa.Phi); ok {
+						for _, e := range phi.Edges {
+							if !isNilConst(resolve(e)) && resolve(e) != ssa.Value(phi) {
+								return false
+							}
+						}
+						return true
+					}
+					return isNilConst(v)
+				}
+				if !allNil(cf.X) || !allNil(cf.Y) {
+					continue
+				}
+				if !types.Identical(cf.X.Type(), types.Universe.Lookup("error").Type()) {
+					continue
+				}
+				n++
+				res.bad(rule, fmt.Sprintf("%s: test of an error that is never assigned #%d", funcName(f), n), p.pos(iff.Cond.Pos()), "the branch tests an error variable that nothing assigns (both sides of the comparison are nil on every path): the guard it was written as cannot fire - after a failed send the loop goes on sending later batches on the same stream, the client sees events behind a gap and the stream ends as if complete")
+			}
+		}
+	}
+	if n == 0 {
+		res.ok(rule, "error guards", "-", "no branch tests an error that can only be nil")
+	}
 }
